@@ -10,6 +10,7 @@ from typing import List, Tuple
 from pyopenapi_gen import IRSchema
 from pyopenapi_gen.context.render_context import RenderContext
 from pyopenapi_gen.core.utils import NameSanitizer
+from pyopenapi_gen.core.writers.documentation_writer import escape_docstring_text
 from pyopenapi_gen.core.writers.python_construct_renderer import PythonConstructRenderer
 from pyopenapi_gen.helpers.type_resolution.finalizer import TypeFinalizer
 from pyopenapi_gen.types.services.type_service import UnifiedTypeService
@@ -119,6 +120,7 @@ class DataclassGenerator:
         context: RenderContext,
     ) -> str:
         """Generate wrapper class for untyped additionalProperties (Any values)."""
+        description = escape_docstring_text(description)
         return f'''__all__ = ["{class_name}"]
 
 @dataclass
@@ -215,6 +217,7 @@ converter.register_unstructure_hook({class_name}, _unstructure_{class_name.lower
         context: RenderContext,
     ) -> str:
         """Generate wrapper class for typed additionalProperties with value deserialization."""
+        description = escape_docstring_text(description)
         # Import Iterator and ValuesView for proper type hints
         context.add_import("typing", "Iterator")
         context.add_import("collections.abc", "ValuesView")
